@@ -233,10 +233,8 @@ func ptrRef(p *Ptr) string {
 	if p.Root == "obj" && p.Path == "" {
 		return p.Ref
 	}
-	if p.Root == "obj" && len(addressable) > 0 {
-		if k, _, rest, ok := addressableSplit(p.Base, strings.TrimSuffix(p.Path, ".")); ok && rest == "" {
-			return vref(k, p.Ref)
-		}
+	if p.Root == "obj" && len(addressable) > 0 && addressablePath(p) {
+		return p.Ref
 	}
 	panic(oos("interior pointer used as a value (root=%s path=%q base=%s)", p.Root, p.Path, typeKey(p.Base)))
 }
@@ -370,10 +368,25 @@ func ptrHasRef(p *Ptr) bool {
 	if p == nil || (p.Root == "obj" && p.Path == "") {
 		return true
 	}
-	if p.Root == "obj" && len(addressable) > 0 {
-		if _, _, rest, ok := addressableSplit(p.Base, strings.TrimSuffix(p.Path, ".")); ok && rest == "" {
-			return true
-		}
+	if p.Root == "obj" && len(addressable) > 0 && addressablePath(p) {
+		return true
 	}
 	return false
+}
+
+// addressablePath: does the pointer's field path consist only of addressable embedded fields?
+func addressablePath(p *Ptr) bool {
+	baseKey := typeKey(p.Base)
+	path := strings.TrimSuffix(p.Path, ".")
+	if path == "" {
+		return true
+	}
+	for _, comp := range strings.Split(path, ".") {
+		ft, ok := addressableFieldType[baseKey+"."+comp]
+		if !ok {
+			return false
+		}
+		baseKey = ft
+	}
+	return true
 }
